@@ -5,7 +5,10 @@ Import ListNotations.
 Open Scope string_scope.
 
 Lemma string_compare_refl s : String.compare s s = Eq.
-Proof. apply String.compare_eq_iff. reflexivity. Qed.
+Proof.
+  induction s as [|c s IH]; cbn; [reflexivity|].
+  unfold Ascii.compare. rewrite N.compare_refl. exact IH.
+Qed.
 
 (* For one rule the removal sorts before (or together with, then stably before) the
    re-creation: key (-order, rule, false) <= key (order, rule, true). *)
